@@ -45,6 +45,8 @@ type loopInfo struct {
 	rangeIx *ssa.Phi   // rangeindex phi, if a slice range loop
 	mapIter *ssa.Range // if a map range loop
 	visited string     // state var name for ghost visited set
+	headSt  *State     // state at the head of an arbitrary iteration (after havoc + invariant)
+	sel     *ssa.Select
 }
 
 type Frame struct {
@@ -63,7 +65,8 @@ type Frame struct {
 	entrySt  *State
 	names    map[string]ssa.Value // single-definition named locals
 	params   map[string]*Val
-	cur      *State // state while executing a block
+	pending  []func() // step obligations, generated once every block has been executed
+	cur      *State   // state while executing a block
 	curReach string
 	curBlock *ssa.BasicBlock
 }
@@ -202,6 +205,9 @@ func (ex *Exec) execFunction(fn *ssa.Function, args []*Val, bindings []*Val, st 
 	order := topoOrder(fn)
 	for _, b := range order {
 		fr.execBlock(b, st, reach)
+	}
+	for _, p := range fr.pending {
+		p()
 	}
 	// merge returns
 	if len(fr.rets) == 0 {
@@ -501,7 +507,16 @@ func (fr *Frame) enterLoop(li *loopInfo, preds []*ssa.BasicBlock, conds []string
 		ex.havocAll(fr.cur)
 	} else {
 		objMods := ex.mods.LoopObjMods(fr, li, mods)
+		allocOnly := ex.mods.LoopAllocOnly(fr, li)
+		allocAtEntry := ex.get(fr.cur, "alloc")
 		for _, m := range mods {
+			if allocOnly[m] && ex.svSort(m).K == KArr && ex.svSort(m).Key.K == KInt {
+				// written only at objects allocated inside the loop: older objects keep their values
+				old := ex.get(fr.cur, m)
+				n := ex.havoc(fr.cur, m)
+				vc.assume("(forall ((r Int)) (! (=> (<= r " + allocAtEntry + ") (= (select " + n + " r) (select " + old + " r))) :pattern ((select " + n + " r))))")
+				continue
+			}
 			if m == "alloc" {
 				old := ex.get(fr.cur, "alloc")
 				n := ex.havoc(fr.cur, "alloc")
@@ -555,6 +570,7 @@ func (fr *Frame) enterLoop(li *loopInfo, preds []*ssa.BasicBlock, conds []string
 			vc.assume(imp(fr.curReach, ex.trBool(inv.Expr, env)))
 		}
 	}
+	li.headSt = fr.cur.Clone()
 	// built-in facts about range index
 	if li.rangeIx != nil {
 		v := phiVals[li.rangeIx]
@@ -583,6 +599,42 @@ func (fr *Frame) checkBackEdge(from *ssa.BasicBlock, li *loopInfo, cond string) 
 				phiVals[phi] = fr.val(phi.Edges[i])
 			}
 		}
+	}
+	// step clauses: relation between iteration head and iteration end; every named local of the
+	// body is visible (the clause must guard on the path that defines it), $case = select index
+	if len(spec.Steps) > 0 {
+		stAtEdge := fr.cur.Clone()
+		fr.pending = append(fr.pending, func() {
+		senv := fr.baseEnv(stAtEdge)
+		senv.prev = li.headSt
+		for n, v := range fr.names {
+			if vv, ok := fr.vals[v]; ok && vv.T != "" {
+				if _, exists := senv.vars[n]; !exists {
+					senv.vars[n] = vv
+				}
+			}
+		}
+		for _, bb := range fr.fn.Blocks {
+			if !li.body[bb.Index] {
+				continue
+			}
+			for _, ins := range bb.Instrs {
+				if sel, ok := ins.(*ssa.Select); ok {
+					if sv, ok := fr.vals[sel]; ok && sv.Tup != nil {
+						senv.vars["$case"] = sv.Tup[0]
+					}
+				}
+			}
+		}
+		for k, stp := range spec.Steps {
+			label := stp.Label
+			if label == "" {
+				label = fmt.Sprint(k)
+			}
+			g := ex.trBool(stp.Expr, senv)
+			ex.vc.oblige("step", ex.oblName(fmt.Sprintf("%s/step@loop%d:%s", fr.key, li.ordinal, label)), cond, g, stp.Src, ex.posOf(from.Instrs[len(from.Instrs)-1].Pos()), nil)
+		}
+		})
 	}
 	env := fr.loopEnv(li, phiVals, fr.cur)
 	for k, inv := range spec.Invariants {
